@@ -149,6 +149,21 @@ def worker(job):
                 st.inc("replace_mode_runs_with_failing_command")
                 if outcomes[-1] == "0" and want_rc == 123:
                     st.inc("replace_mode_runs_where_only_earlier_lines_fail")
+            if mix < 0.6 and oversized_at is None and nlines and rng.random() < 0.15:
+                # a size limit (-s) only a few bytes above what the largest command line of this run needs - whether measured as built
+                # (initial arguments with the line substituted) or as read (initial arguments plus the line): every line still fits,
+                # so every line is still run
+                enc = lambda x: x.encode("utf-8", "surrogateescape")
+                cmd_cost = len(enc(common.REC)) + 1
+                tmpl = cmd_cost + sum(len(enc(a)) + 1 for a in initial)
+                need = 0
+                for ln in lines:
+                    if ln == "":
+                        continue
+                    built = cmd_cost + sum(len(enc(a.replace(Reff, ln))) + 1 for a in initial)
+                    need = max(need, built, tmpl + len(enc(ln)) + 1)
+                opts = ["-s", str(need + rng.choice([1, 1, 2, 3, 8]))] + opts
+                st.inc("replace_mode_runs_with_a_size_limit_that_just_fits")
             r = xref.run_xargs(wd, opts, [a.encode() for a in initial], data, script=script)
             st.inc("evaluations")
             st.add("distinct", (tuple(opts), tuple(initial), data))
